@@ -561,4 +561,59 @@ class _Names:
         return self._get("GE_OPTIONS", find)
 
 
+    # ---- the scanner's state -----------------------------------------------------------------------
+    def _scanner_attrs(self):
+        def find():
+            try:
+                cls = facts().cls("gherkin.token_scanner.TokenScanner")
+            except AnalysisError:
+                return ("io", "line_number")
+            io_attr = ln_attr = None
+            rd = cls.find_method("read")
+            for n in _walk(rd.node) if rd else []:
+                # the handle: what read() calls readline() on; the counter: what read() advances
+                if isinstance(n, ast.Call) and isinstance(n.func, ast.Attribute) and n.func.attr in ("readline", "read", "readlines", "__next__") \
+                        and isinstance(n.func.value, ast.Attribute) and isinstance(n.func.value.value, ast.Name) and n.func.value.value.id == rd.params()[0]:
+                    io_attr = io_attr or n.func.value.attr
+                if isinstance(n, ast.AugAssign) and isinstance(n.target, ast.Attribute) and isinstance(n.target.value, ast.Name) and n.target.value.id == rd.params()[0]:
+                    ln_attr = ln_attr or n.target.attr
+                if isinstance(n, ast.Assign) and isinstance(n.targets[0], ast.Attribute) and isinstance(n.value, ast.BinOp) and isinstance(n.value.op, ast.Add) \
+                        and isinstance(n.value.left, ast.Attribute) and n.value.left.attr == n.targets[0].attr:
+                    ln_attr = ln_attr or n.targets[0].attr
+            init = cls.find_method("__init__")
+            for n in _walk(init.node) if init else []:
+                if isinstance(n, ast.Assign) and isinstance(n.targets[0], ast.Attribute):
+                    v = n.value
+                    if io_attr is None and isinstance(v, ast.Call) and getattr(v.func, "attr", getattr(v.func, "id", "")) in ("open", "StringIO"):
+                        io_attr = n.targets[0].attr
+                    if ln_attr is None and isinstance(v, ast.Constant) and v.value == 0 and not isinstance(v.value, bool):
+                        ln_attr = n.targets[0].attr
+            return (io_attr or "io", ln_attr or "line_number")
+        return self._get("SCANNER_ATTRS", find)
+
+    SCANNER_IO = property(lambda self: self._scanner_attrs()[0])
+    SCANNER_LINENO = property(lambda self: self._scanner_attrs()[1])
+
+
+    def idgen_attr(self, cls_q: str) -> str:
+        """The attribute of a component through which it draws ids (``self.<attr>.get_next_id()``)."""
+        return self._held(cls_q, None, "get_next_id", "id_generator")
+
+    @property
+    def DIALECT_SPEC(self) -> str:
+        """The attribute a Dialect keeps its table entry in (what __init__ stores its argument in)."""
+        def find():
+            try:
+                cls = facts().cls("gherkin.dialect.Dialect")
+            except AnalysisError:
+                return "spec"
+            init = cls.find_method("__init__")
+            ps = init.params() if init else []
+            for n in _walk(init.node) if init else []:
+                if isinstance(n, ast.Assign) and isinstance(n.targets[0], ast.Attribute) and isinstance(n.value, ast.Name) and len(ps) > 1 and n.value.id == ps[1]:
+                    return n.targets[0].attr
+            return "spec"
+        return self._get("DIALECT_SPEC", find)
+
+
 N = _Names()
